@@ -9,6 +9,9 @@ import traceback
 import warnings
 
 
+WANT_BYTECODE = False   # set from the job: return the deployment bytecode of successful compilations
+
+
 class Timeout(BaseException):
     pass
 
@@ -73,14 +76,17 @@ def classify1(src, venom, level, limit, phase="bytecode", files=None, evm=None):
         with warnings.catch_warnings():
             warnings.simplefilter("ignore")
             fmts = ["bytecode", "bytecode_runtime", "abi"] if phase == "bytecode" else ["annotated_ast_dict"]
+            out = None
             if files is None:
-                compile_code(src, output_formats=fmts, settings=st)
+                out = compile_code(src, output_formats=fmts, settings=st)
             else:
                 from vyper.cli.vyper_compile import compile_files
                 root, target, paths, layout = files
                 compile_files([os.path.join(root, target)], fmts, paths=[os.path.join(root, p) for p in paths],
                               include_sys_path=False, settings=st,
                               storage_layout_paths=[os.path.join(root, layout)] if layout else None)
+        if WANT_BYTECODE and out is not None and "bytecode" in out:
+            return {"outcome": "output", "bytecode": out["bytecode"]}
         return {"outcome": "output"}
     except Timeout:
         return {"outcome": "INTERNAL", "exc": "Timeout", "frame": "?", "msg": f"no result within {limit}s"}
@@ -101,6 +107,8 @@ def classify1(src, venom, level, limit, phase="bytecode", files=None, evm=None):
 def main():
     job = json.load(open(sys.argv[1]))
     limit = job["limit"]
+    global WANT_BYTECODE
+    WANT_BYTECODE = bool(job.get("want_bytecode"))
     import tempfile
     for it in job["items"]:
         res = {"id": it["id"], "runs": {}}
